@@ -494,7 +494,7 @@ def evaluate_payload_template(input, context, template):
 
             try:
                 input_bytes = bytes(args[0], "utf-8")  # Get bytes from string
-                return base64.b64decode(input_bytes).decode("utf-8")
+                return base64.b64decode(input_bytes, validate=True).decode("utf-8")
             except Exception as e:
                 raise IntrinsicFailure(
                     "States.Base64Decode failed with {}.".format(e)
